@@ -157,6 +157,10 @@ def _lcd_cases() -> list:
                                            C("message", t=[txt("t"), txt("b")], s=["center", "right"], b=[f, True, True])]})
         cases.append({"g": G(16, 2, "parallel", True), "h": [C("brightness", i=[120]), C("backlight", b=[f]), C("brightness", i=[40]),
                                                                C("display", b=[not f]), C("backlight", b=[not f]), C("display", b=[f])]})
+        # the backlight on pin 0, spelled as a literal / as constant arithmetic (a pin number that folds to 0 is still a pin)
+        # (one display per pin: the literal 0 in one case, `9 - 8` = pin 1 in its twin)
+        g0 = dict(G(16, 2, "parallel", True), blspell="0" if f else "9 - 8")
+        cases.append({"g": g0, "h": [C("brightness", i=[200]), C("backlight", b=[not f]), C("brightness", i=[90]), C("backlight", b=[f]), C("backlight", b=[True])]})
         cases.append({"g": G(16, 2, "i2c"), "h": [C("line", i=[0], t=[txt("hello")], s=["left"], b=[True]), C("display", b=[f]),
                                                    C("backlight", b=[not f]), C("write", i=[2, 1], t=[txt("zz")], s=["left"], b=[f])]})
     return cases
